@@ -219,7 +219,105 @@ func c20PluginScenario(r *gen.Rand, dir string) (string, string) {
 	return desc, ""
 }
 
+// c20WatchDispose: Dispose (or Cancel, or a joining Rebuild) arrives while a rebuild that the WATCHER started is in
+// the middle of its load callbacks; every call must return, Dispose only after that build's end callback ran.
+func c20WatchDispose(r *gen.Rand, dir string) (string, string) {
+	os.RemoveAll(dir)
+	writeTree(dir, map[string]string{"src/a.js": "import \"./b.js\";\nconsole.log(1);\n", "src/b.js": "console.log(2);\n"})
+	var builds, ends int64
+	entered := make(chan struct{}, 16)
+	release := make(chan struct{})
+	var holdFrom int64 = 2 // build 1 is the initial build of Watch()
+	plugin := api.Plugin{Name: "hold", Setup: func(b api.PluginBuild) {
+		b.OnStart(func() (api.OnStartResult, error) { atomic.AddInt64(&builds, 1); return api.OnStartResult{}, nil })
+		b.OnLoad(api.OnLoadOptions{Filter: `b\.js$`}, func(a api.OnLoadArgs) (api.OnLoadResult, error) {
+			if atomic.LoadInt64(&builds) >= holdFrom {
+				entered <- struct{}{}
+				<-release
+			}
+			return api.OnLoadResult{}, nil
+		})
+		b.OnEnd(func(res *api.BuildResult) (api.OnEndResult, error) { atomic.AddInt64(&ends, 1); return api.OnEndResult{}, nil })
+	}}
+	ctx, err := api.Context(api.BuildOptions{AbsWorkingDir: dir, EntryPoints: []string{"src/a.js"}, Bundle: true, Outdir: "out", Write: r.Bool(), LogLevel: api.LogLevelSilent, Plugins: []api.Plugin{plugin}})
+	if err != nil {
+		return "", "context error: " + err.Error()
+	}
+	action := []string{"dispose", "dispose", "cancel+dispose", "rebuild+dispose"}[r.Intn(4)]
+	desc := "watch-triggered rebuild held in a load callback; then " + action
+	if werr := ctx.Watch(api.WatchOptions{}); werr != nil {
+		ctx.Dispose()
+		return "", "watch error: " + werr.Error()
+	}
+	// wait for the initial build, then edit
+	deadline := time.Now().Add(20 * time.Second)
+	for atomic.LoadInt64(&ends) < 1 && time.Now().Before(deadline) {
+		time.Sleep(5 * time.Millisecond)
+	}
+	time.Sleep(time.Duration(r.Intn(30)) * time.Millisecond)
+	os.WriteFile(filepath.Join(dir, "src/b.js"), []byte(fmt.Sprintf("console.log(%d);\n", 3+r.Intn(100))), 0644)
+	select {
+	case <-entered:
+	case <-time.After(30 * time.Second):
+		close(release)
+		ctx.Dispose()
+		return "", "" // the watcher did not start a rebuild in time: inconclusive
+	}
+	endsBefore := atomic.LoadInt64(&ends)
+	done := make(chan string, 1)
+	go func() {
+		switch action {
+		case "cancel+dispose":
+			ctx.Cancel()
+		case "rebuild+dispose":
+			ctx.Rebuild()
+		}
+		ctx.Dispose()
+		if atomic.LoadInt64(&ends) <= endsBefore {
+			done <- "Dispose returned before the end callback of the running (watch-triggered) build had run"
+			return
+		}
+		done <- ""
+	}()
+	time.Sleep(time.Duration(20+r.Intn(200)) * time.Millisecond)
+	close(release)
+	select {
+	case bad := <-done:
+		return desc, bad
+	case <-time.After(30 * time.Second):
+		return desc, "deadlock: " + action + " did not return within 30 s after the held load callback was released"
+	}
+}
+
 func init() {
+	searches["c20-watch"] = func(r *gen.Rand, count int, workdir string, rep *Report) {
+		rep.Rule = "a watching context whose watcher-started rebuild is held inside a load callback while Dispose / Cancel+Dispose / Rebuild+Dispose is called from another goroutine, then released after 20-220 ms: every call returns within 30 s and Dispose only after the end callback of the held build. non-trivial = the watcher started the rebuild"
+		for i := 0; i < count; i++ {
+			seed := r.U64()
+			desc, bad := c20WatchDispose(gen.New(seed), filepath.Join(workdir, "c20w"))
+			rep.Evaluations++
+			if desc != "" {
+				rep.DistinctNontrivial++
+			} else if bad == "" {
+				rep.Inconclusive++
+			}
+			if bad != "" {
+				rep.violate("c20/watch-dispose", bad+" ["+desc+"]", c20Replay{Scenario: "watch", Seed: seed, Diff: bad})
+				if strings.HasPrefix(bad, "deadlock") {
+					break // the stuck goroutines stay; further runs in this process are not meaningful
+				}
+			}
+		}
+		os.RemoveAll(filepath.Join(workdir, "c20w"))
+	}
+	replays["c20-watch"] = func(cj json.RawMessage, workdir string, rep *Report) {
+		var c c20Replay
+		json.Unmarshal(cj, &c)
+		rep.Evaluations++
+		if _, bad := c20WatchDispose(gen.New(c.Seed), filepath.Join(workdir, "c20w")); bad != "" {
+			rep.violate("replay/watch-dispose", bad, c)
+		}
+	}
 	searches["c20-plugins"] = func(r *gen.Rand, count int, workdir string, rep *Report) {
 		rep.Rule = "builds (one-shot and contexts with concurrent joiners) with 1-2 plugins that register 1-3 delayed start callbacks, resolve and load callbacks on every path and 1-3 end callbacks (one may fail), over module graphs with repeated imports, cycles, several entry points and injected files; the stamped callback log must show: all start callbacks finished before the first resolve/load, every module loaded at most once per build, every end callback at most once and after the outputs exist, all end callbacks up to the first failing one. non-trivial = a build ran"
 		for i := 0; i < count; i++ {
